@@ -28,11 +28,14 @@ CHECKS = {
  "C14": dict(level="other",
    text="Partially decided by the specification (DESIGN.md section 6). (c) The CRC primitives are written in TLA+ as their bit-serial definitions (Crc.tla) and TLC compares the real library's results "
         "with them for every length 0..48 (64 thorough) x alignment 0..7 x 4 content patterns x 3 algorithms. (a) 'every object carries the format's checksum' is the conjunct Csums of "
-        "Ext4Abs.Consistent evaluated by TLC on projections of tool-produced images, with the recomputation done by the independent reader. (b) covered-byte flips of live metadata objects must be "
-        "detected by e2fsck -fn and the library (fault enumeration guided by the reader's location map).",
+        "Ext4Abs.Consistent evaluated by TLC on projections (independent reader, own crc32c/crc16) of images produced by mke2fs, debugfs -w, tune2fs (-U, csum seed, csum off/on), resize2fs and e2fsck -fyD "
+        "on 12 feature profiles. (b) CsumCoverage.tla states per object type which bytes the format covers (TLC checks it against the format's length formulas); one bit of a covered / boundary byte of a live "
+        "superblock, descriptor, bitmap, inode, extent block, directory leaf, htree node, xattr block, MMP block is flipped; the reader says whether the stored checksum is stale; e2fsck -fn and the "
+        "library read path of that object type (harness/csumdrv.c) must both detect; TLC decides every line (Trace_CsumCoverage) and reports reader/spec disagreement as check-broken.",
    note="Level 'other' because the decisive recomputation for clause (a) sits in the observation layer (python reader), TLA+ only states the invariant; CRC reference limited to short buffers "
-        "(TLC cannot fold kilobytes). Truncated (16-bit) checksum collisions are excluded from clause (b) obligations.",
-   technique="TLA+ bit-serial CRC definitions evaluated by TLC against the library; Consistent.Csums on projected images; spec-guided fault enumeration"),
+        "(TLC cannot fold kilobytes). Truncated (16-bit) checksum collisions are excluded from clause (b) obligations. Journal descriptor/commit/revoke block checksums are covered by C03's damaged journals, "
+        "not here. Two known findings: the library never reports a group-descriptor checksum mismatch; e2fsck -fn reports it but exits 0 (declined pass-0 problem forgotten).",
+   technique="TLA+ bit-serial CRC definitions and checksum-coverage function evaluated by TLC against the library; Consistent.Csums on projected images; spec-guided byte-flip fault enumeration"),
 }
 
 CHECKS.update({
